@@ -2,7 +2,8 @@
 From Coq Require Import List NArith ZArith Arith Bool.
 Import ListNotations.
 From Chiri Require Import Base.Bytes Base.Res Model.Tokenizer Model.TreeParser Model.Markers Model.Clean
-     Spec.Ranges Spec.Extents Proofs.C04Proofs Proofs.C05Proofs Proofs.CollectProofs Proofs.CleanProofs.
+     Spec.Ranges Spec.Extents Spec.Rename Spec.Simulation Proofs.C04Proofs Proofs.C05Proofs Proofs.CollectProofs Proofs.CleanProofs
+     Proofs.RenameProofs Proofs.SimStrings Proofs.WellNested Proofs.DocMask Proofs.AstCollect Proofs.Idempotent.
 Local Open Scope Z_scope.
 
 (** The full statements (kept visible; NOT proved in full):
@@ -19,12 +20,54 @@ Definition C19_composition_statement : Prop :=
     clean cfg ds de s = Ok out1 -> clean (with_now cfg now2) ds de out1 = Ok out12 ->
     clean (with_now cfg now2) ds de s = Ok out2 ->
     nonws out12 = nonws out2.
-(** Both need, beyond what is proved below, a re-tokenisation lemma (deleting whole tags and
-    whitespace outside tags from a document whose delimiter strings occur only in tags leaves the
-    remaining tags, their pairing and their unwrap applicability unchanged).  They are validated by
-    the history runs of this check (chains of 1..4 configurations), not proved. *)
+(** As stated (for EVERY well-formed source) idempotence is not what the property claims: its domain is
+    sources in which delimiter strings occur only as parts of tags, generated from ASTs.  Proved below
+    for AST documents without unwrap-block elements (idempotence; the composition over growing
+    readiness for the same documents is in Proofs/Compose.v when present).  NOT proved: documents with
+    unwrap-block elements (there the re-tokenisation argument needs, in addition, that wrapper lines
+    carry no tags and that an element that could not be unwrapped still cannot be after its children
+    are gone); these are validated by the history runs of this check (chains of 1..4 configurations). *)
 
-(** What is proved.  (1) A second run is the identity as soon as the first output contains no ready
+(** PROVED (Proofs/Idempotent.v): idempotence for every document that is the rendering of an
+    abstract syntax tree (texts, comment tags, properly nested elements: Proofs/WellNested.v) in which
+    no element uses unwrap-block, with delimiter bytes occurring only in tags (the property's own
+    restriction).  One run deletes one mask that respects the tree (whole elements, whitespace inside
+    texts), so the output is again the rendering of a tree whose elements are the input's elements
+    outside every ready element; none of them is ready, so the second run deletes nothing. *)
+Theorem C19_idempotent_default_strategy :
+  forall cfg ds de f out,
+    good_delims ds de -> good_doc ds de (doc_of f) -> bodies_ok (doc_of f) ->
+    Forall ast_ok f -> no_unwrap f ->
+    clean cfg ds de (render ds de (doc_of f)) = Ok out ->
+    clean cfg ds de out = Ok out.
+Proof. exact clean_idempotent_default. Qed.
+Print Assumptions C19_idempotent_default_strategy.
+
+(** The output of a run is the rendering of a tree whose elements are exactly the input's elements
+    that do not lie in the span of a ready element, in order ("output contains only text and
+    non-ready elements, which re-tokenize to themselves"). *)
+Theorem C19_output_is_a_tree_of_the_surviving_elements :
+  forall cfg ds de f out,
+    good_delims ds de -> good_doc ds de (doc_of f) -> bodies_ok (doc_of f) ->
+    Forall ast_ok f -> no_unwrap f ->
+    clean cfg ds de (render ds de (doc_of f)) = Ok out ->
+    exists f2, out = render ds de (doc_of f2) /\ Forall ast_ok f2 /\
+      good_doc ds de (doc_of f2) /\ bodies_ok (doc_of f2) /\
+      map node_bodies (ast_nodes 0 f2) =
+      map node_bodies (filter (fun n => negb (del1 cfg f (fstart (doc_of f) (node_open n))))
+                              (ast_nodes 0 f)).
+Proof. exact clean_output_ast_keep. Qed.
+Print Assumptions C19_output_is_a_tree_of_the_surviving_elements.
+
+(** Non-vacuity: "a\n<!rm name='g'>\n  p\n  <!rm name='f'>q<!/rm>\n  r\n<!/rm>\nc" (a ready element on
+    its own indented line inside a pending one) satisfies the premises; the first run removes the
+    line, the second run is the identity. *)
+Example C19_idempotent_example :
+  clean ac_cfg id_ds id_de (render id_ds id_de (doc_of id_ast)) = Ok id_out /\
+  clean ac_cfg id_ds id_de id_out = Ok id_out.
+Proof. split; [exact id_first | exact id_second]. Qed.
+
+(** The older partial results, for arbitrary sources.  (1) A second run is the identity as soon as the first output contains no ready
     element (C04 applied to the output). *)
 Theorem C19_second_run_identity_partial :
   forall cfg ds de out parts,
